@@ -1,10 +1,36 @@
 import FqModel.Serial.Msgpack
 import Proofs.C16Common
 import Proofs.C16Msgpack
+import Proofs.C16Cbor
+import Proofs.C16Bencode
 import FqModel.Serial.SourcePins
 import FqModel.Gen.SerialTables
 /-!
   C16 — serialization decoders recover exactly the value that was encoded (property theorems).
+
+  Models: FqModel/Serial/{Msgpack,Cbor,Bencode}.lean — `decode` = the Go decoder fused with the format's
+  `_F_torepr` jq reducer, `encode` over wire trees `W` (a value with a wire form chosen at every node:
+  integer widths, length-prefix sizes, float sizes, definite/indefinite lengths with arbitrary chunking,
+  alternative decimal spellings).  `value : W → V` erases the wire forms, `norm` is what torepr makes of a
+  source value (byte strings become strings, ill-formed bytes replaced by U+FFFD; identity otherwise).
+
+  Full statement of the property, per format F, for ALL values v in the format's domain, ALL wire trees x of
+  v and ALL trailing data:
+     (a) F_roundtrip      decode (encode x ++ rest) = ok (norm v, rest)
+     (b) F_prefix_fails   k < |encode x|  →  decode (take k (encode x)) = err      (truncation is an error)
+     (c) F_trailing       the value is the one decoded without trailing data; the remainder is exactly it
+     (d) F_all_values     every in-domain v has a valid wire tree (so (a)–(c) are not vacuous for any v)
+  proved: msgpack (a)–(d), bencode (a)–(d);
+          cbor: (a)–(c) are FALSE of the code as it is for wire trees with an indefinite-length byte/text
+          string (`cbor_indef_string_break_witness`, `cbor_full_roundtrip_false`; known finding
+          cbor-indef-string-break) — proved are `cbor_*_partial` (all wire trees without such strings, which
+          by `cbor_all_values` still covers every in-domain value) and the full (a)–(c) for the one-line
+          repair (`cborFixed_*`).
+  NOT modelled / not proved (monitored by the harness only): bson, asn1_ber and the text formats
+  (json, jsonl, yaml, toml, xml, csv); msgpack ext types and cbor semantic tags (their torepr is not a
+  JSON-like value).
+  Regenerated facts: `msgpack_rows_regenerated`, `msgpack_table_partition`, `msgpack_symbols_regenerated`,
+  `*_source_regenerated`, `cbor_constants_regenerated` tie the models to the current source text.
 -/
 namespace Props.C16
 open FqModel.Serial Proofs.C16
@@ -37,7 +63,162 @@ theorem msgpack_trailing (x : W) (h : valid x = true) (rest : Bytes) :
   refine ⟨norm (value x), ?_, msgpack_roundtrip x h rest⟩
   simpa using msgpack_roundtrip x h []
 
+/-- every in-domain value has a valid wire tree (the canonical smallest-form one), so the theorems above
+    speak about every value -/
+theorem msgpack_all_values (v : V) (h : inDomain v = true) : valid (canon v) = true ∧ value (canon v) = v :=
+  Proofs.C16.Msgpack.canon_ok v h
+
+/-- (a) for a value, in words of the property: decoding the (canonical) encoding of `v` gives `v` back -/
+theorem msgpack_roundtrip_value (v : V) (h : inDomain v = true) (rest : Bytes) :
+    decode (encode (canon v) ++ rest) = .ok (norm v, rest) := by
+  have ⟨h1, h2⟩ := msgpack_all_values v h
+  rw [msgpack_roundtrip _ h1 rest, h2]
+
+/-! non-vacuity: a valid wire tree that uses fix/8/16/32-bit forms, float32, bin, nested containers -/
+example : valid (.map .l16 [(.str .l8 [0x6b], .arr .fix [.int .i32 (-5), .int .u64 (2^64 - 1), .f32 0x3fc00000, .bin .l8 [0xff],
+    .str .fix [0xc3, 0xa9], .nil, .bool true]), (.bin .l16 [1], .map .fix [])]) = true := by decide +kernel
+example : inDomain (.map [(.str [0x6b], .arr [.int (-(2^63)), .float 0x7ff8000000000001, .bytes [0x80]])]) = true := by
+  decide +kernel
+example : (encode (.arr .l16 [.int .u8 200, .str .l8 [0x61]])).length = 8 := by decide +kernel
+
 end msgpack
+
+/-! ## cbor -/
+section cbor
+open FqModel.Serial.Cbor
+
+/-- KNOWN FINDING `cbor-indef-string-break`, pinned by evaluation of the as-is model: an indefinite-length
+    text string leaves its break marker unread — alone it becomes trailing data, inside a definite array it
+    is decoded as the next element (null) and pushes the real element out, inside an indefinite array it
+    ends the array. -/
+theorem cbor_indef_string_break_witness :
+    decode [0x7f, 0x61, 0x61, 0x61, 0x62, 0xff] = .ok (.str [0x61, 0x62], [0xff]) ∧
+    decode [0x82, 0x5f, 0x41, 0x61, 0xff, 0x01] = .ok (.arr [.str [0x61], .null], [0x01]) ∧
+    decode [0x9f, 0x7f, 0x61, 0x61, 0xff, 0x01, 0xff] = .ok (.arr [.str [0x61]], [0x01, 0xff]) :=
+  ⟨resEq_sound _ _ (by decide +kernel), resEq_sound _ _ (by decide +kernel), resEq_sound _ _ (by decide +kernel)⟩
+
+/-- the repair (consume the break) decodes the three witnesses correctly -/
+theorem cborFixed_witness :
+    decodeFixed [0x7f, 0x61, 0x61, 0x61, 0x62, 0xff] = .ok (.str [0x61, 0x62], []) ∧
+    decodeFixed [0x82, 0x5f, 0x41, 0x61, 0xff, 0x01] = .ok (.arr [.str [0x61], .int 1], []) ∧
+    decodeFixed [0x9f, 0x7f, 0x61, 0x61, 0xff, 0x01, 0xff] = .ok (.arr [.str [0x61], .int 1], []) :=
+  ⟨resEq_sound _ _ (by decide +kernel), resEq_sound _ _ (by decide +kernel), resEq_sound _ _ (by decide +kernel)⟩
+
+/-- so the full round-trip statement is FALSE of the code as it is (`cbor_roundtrip_partial` cannot be
+    strengthened to all wire trees) -/
+theorem cbor_full_roundtrip_false :
+    ¬ (∀ x : W, valid x = true → decode (encode x) = .ok (norm (value x), [])) := by
+  intro h
+  have h1 := h (.strI [(.direct, [0x61])]) (by decide +kernel)
+  have h2 : decode (encode (.strI [(.direct, [0x61])])) = .ok (.str [0x61], [0xff]) :=
+    resEq_sound _ _ (by decide +kernel)
+  rw [h2] at h1
+  have h3 := congrArg (fun r => match r with | Res.ok (_, rest) => rest.length | Res.err _ => 0) h1
+  simp at h3
+
+/-- the fix of DESIGN §1.8 #10 (commit fa784167) is what the model has: an indefinite-length array of 40
+    elements decodes to 40 elements (the old loop stopped after 31) -/
+theorem cbor_indef_array_40 :
+    decode (0x9f :: (List.replicate 40 0x01 ++ [0xff])) = .ok (.arr (List.replicate 40 (.int 1)), []) :=
+  resEq_sound _ _ (by decide +kernel)
+
+/-- round trip for the code AS IT IS, for every wire tree without an indefinite-length byte/text string
+    (indefinite-length arrays and maps included).  MISSING for the full statement: wire trees with chunked
+    strings — false of the current code (`cbor_full_roundtrip_false`), known finding `cbor-indef-string-break`. -/
+theorem cbor_roundtrip_partial (x : W) (h : valid x = true) (hn : noIndefStr x = true) (rest : Bytes) :
+    decode (encode x ++ rest) = .ok (norm (value x), rest) := by
+  unfold decode
+  rw [(Proofs.C16.Cbor.main false ((encode x ++ rest).length + 1)).1 x h (Or.inr hn) (by simp; omega) rest]
+  exact withRepr_ok _ _ (Proofs.C16.Cbor.reprOK_value x h)
+
+theorem cbor_prefix_fails_partial (x : W) (h : valid x = true) (hn : noIndefStr x = true) (k : Nat)
+    (hk : k < (encode x).length) : decode ((encode x).take k) = .err .eof := by
+  unfold decode
+  have hl : ((encode x).take k).length = k := by simp [List.length_take]; omega
+  rw [hl, (Proofs.C16.Cbor.main false (k + 1)).2 x h (Or.inr hn) k hk (by omega)]
+  rfl
+
+theorem cbor_trailing_partial (x : W) (h : valid x = true) (hn : noIndefStr x = true) (rest : Bytes) :
+    ∃ v, decode (encode x) = .ok (v, []) ∧ decode (encode x ++ rest) = .ok (v, rest) := by
+  refine ⟨norm (value x), ?_, cbor_roundtrip_partial x h hn rest⟩
+  simpa using cbor_roundtrip_partial x h hn []
+
+/-- the FULL statement for the repaired decoder (break of an indefinite-length string consumed): every
+    wire tree — all argument widths, definite and indefinite lengths, arbitrary chunking, float16/32/64 -/
+theorem cborFixed_roundtrip (x : W) (h : valid x = true) (rest : Bytes) :
+    decodeFixed (encode x ++ rest) = .ok (norm (value x), rest) := by
+  unfold decodeFixed
+  rw [(Proofs.C16.Cbor.main true ((encode x ++ rest).length + 1)).1 x h (Or.inl rfl) (by simp; omega) rest]
+  exact withRepr_ok _ _ (Proofs.C16.Cbor.reprOK_value x h)
+
+theorem cborFixed_prefix_fails (x : W) (h : valid x = true) (k : Nat) (hk : k < (encode x).length) :
+    decodeFixed ((encode x).take k) = .err .eof := by
+  unfold decodeFixed
+  have hl : ((encode x).take k).length = k := by simp [List.length_take]; omega
+  rw [hl, (Proofs.C16.Cbor.main true (k + 1)).2 x h (Or.inl rfl) k hk (by omega)]
+  rfl
+
+/-- every in-domain value has a valid wire tree without indefinite-length strings, so the `_partial`
+    theorems cover every VALUE (what they leave out are alternative chunked encodings of strings) -/
+theorem cbor_all_values (v : V) (h : inDomain v = true) :
+    valid (canon v) = true ∧ value (canon v) = v ∧ noIndefStr (canon v) = true :=
+  Proofs.C16.Cbor.canon_ok v h
+
+theorem cbor_roundtrip_value (v : V) (h : inDomain v = true) (rest : Bytes) :
+    decode (encode (canon v) ++ rest) = .ok (norm v, rest) := by
+  have ⟨h1, h2, h3⟩ := cbor_all_values v h
+  rw [cbor_roundtrip_partial _ h1 h3 rest, h2]
+
+/-! non-vacuity: indefinite array and map, all head widths, float16, chunked strings (for the repaired variant) -/
+example : valid (.arrI [.int .h16 (-300), .mapI [(.str .h8 [0x6b], .f16 0x3c00)], .arr .h64 [.bytes .h32 [1, 2]],
+    .int .direct 23, .null]) = true ∧
+    noIndefStr (.arrI [.int .h16 (-300), .mapI [(.str .h8 [0x6b], .f16 0x3c00)], .arr .h64 [.bytes .h32 [1, 2]],
+    .int .direct 23, .null]) = true := by decide +kernel
+example : valid (.arr .direct [.strI [(.h8, [0x61]), (.direct, []), (.direct, [0xc3, 0xa9])], .bytesI []]) = true := by
+  decide +kernel
+example : inDomain (.map [(.str [0x6b], .arr [.int (-(2^64)), .int (2^64 - 1), .float 1, .bytes [0x80]])]) = true := by
+  decide +kernel
+
+end cbor
+
+/-! ## bencode -/
+section bencode
+open FqModel.Serial.Bencode
+
+theorem bencode_roundtrip (x : W) (h : valid x = true) (rest : Bytes) :
+    decode (encode x ++ rest) = .ok (norm (value x), rest) := by
+  unfold decode
+  rw [(Proofs.C16.Bencode.main ((encode x ++ rest).length + 1)).1 x h (by simp; omega) rest]
+  exact withRepr_ok _ _ (Proofs.C16.Bencode.reprOK_value x h)
+
+theorem bencode_prefix_fails (x : W) (h : valid x = true) (k : Nat) (hk : k < (encode x).length) :
+    decode ((encode x).take k) = .err .eof := by
+  unfold decode
+  have hl : ((encode x).take k).length = k := by simp [List.length_take]; omega
+  rw [hl, (Proofs.C16.Bencode.main (k + 1)).2 x h k hk (by omega)]
+  rfl
+
+theorem bencode_trailing (x : W) (h : valid x = true) (rest : Bytes) :
+    ∃ v, decode (encode x) = .ok (v, []) ∧ decode (encode x ++ rest) = .ok (v, rest) := by
+  refine ⟨norm (value x), ?_, bencode_roundtrip x h rest⟩
+  simpa using bencode_roundtrip x h []
+
+theorem bencode_all_values (v : V) (h : inDomain v = true) : valid (canon v) = true ∧ value (canon v) = v :=
+  Proofs.C16.Bencode.canon_ok v h
+
+theorem bencode_roundtrip_value (v : V) (h : inDomain v = true) (rest : Bytes) :
+    decode (encode (canon v) ++ rest) = .ok (norm v, rest) := by
+  have ⟨h1, h2⟩ := bencode_all_values v h
+  rw [bencode_roundtrip _ h1 rest, h2]
+
+/-! non-vacuity: `+`, `-0`, leading zeros, nested list/dictionary -/
+example : valid (.dict [(.str 2 [0x6b], .list [.int .plus 3 42, .int .minus 0 0, .int .minus 0 (2^63), .str 0 []])]) = true := by
+  decide +kernel
+example : encode (.int .plus 2 5) = [0x69, 0x2b, 0x30, 0x30, 0x35, 0x65] := by decide +kernel
+example : inDomain (.map [(.str [0x6b], .arr [.int (-(2^63)), .int (2^63 - 1), .str [0xc3, 0xa9]])]) = true := by
+  decide +kernel
+
+end bencode
 
 /-! ## regenerated facts (FqModel/Gen/SerialTables.lean is rewritten from /repo on every run) -/
 section regenerated
